@@ -436,7 +436,17 @@ pub fn run(ctx: &mut Ctx) {
         any::<bool>(),
     )
         .prop_map(|(max_queue, offered_vf, ackvf, acked_pf, need_reply)| crate::feops::FeState { max_queue, offered_vf, acked_vf: if ackvf { offered_vf } else { 0 }, acked_pf: if offered_vf != 0 { acked_pf } else { 0 }, need_reply });
-    let with_fd = crate::feops::op_strategy().prop_filter("call lends a descriptor", |op| { use crate::feops::FeOp as O; matches!(op, O::SetMemTable(_) | O::AddMemRegion(_) | O::SetLogBase { region: Some(_), .. } | O::SetLogFd | O::SetVringCall(_) | O::SetVringKick(_) | O::SetVringErr(_) | O::SetBackendReqFd | O::SetInflightFd(..) | O::SetDeviceStateFd(_)) });
+    // construction, not rejection: a generated call that lends nothing is replaced by one of two that do
+    let with_fd = (crate::feops::op_strategy(), any::<bool>(), crate::feops::queue_index()).prop_map(|(op, alt, q)| {
+        use crate::feops::FeOp as O;
+        if matches!(op, O::SetMemTable(_) | O::AddMemRegion(_) | O::SetLogBase { region: Some(_), .. } | O::SetLogFd | O::SetVringCall(_) | O::SetVringKick(_) | O::SetVringErr(_) | O::SetBackendReqFd | O::SetInflightFd(..) | O::SetDeviceStateFd(_)) {
+            op
+        } else if alt {
+            O::SetLogBase { base: 0x4000, region: Some((0x1000, 0)) }
+        } else {
+            O::SetVringKick(q)
+        }
+    });
     let ls = (st, with_fd, crate::feops::reply_vals(), 0u8..4).prop_map(|(st, op, rv, answer)| LentCase { st, op, rv, answer });
     ctx.prop_check("lent_descriptors", n, ls, |ctx, c| run_lent(ctx, c));
 
